@@ -2,9 +2,10 @@ set -e
 rm -rf /tmp/seedeval /tmp/seedrepo
 git clone -q /verif /tmp/seedeval
 git clone -q /repo /tmp/seedrepo
-cp -r /verif/lean/.lake /tmp/seedeval/lean/.lake
-cp -r /verif/harness/target /tmp/seedeval/harness/target
-cp -r /verif/harness/target-grcov /tmp/seedeval/harness/target-grcov
+# build directories change under our feet when builders are at work: vanished files are fine
+rsync -a /verif/lean/.lake/ /tmp/seedeval/lean/.lake/ || true
+rsync -a /verif/harness/target/ /tmp/seedeval/harness/target/ || true
+rsync -a /verif/harness/target-grcov/ /tmp/seedeval/harness/target-grcov/ || true
 cp /verif/harness/Cargo.lock /tmp/seedeval/harness/Cargo.lock
 mkdir -p /tmp/seedeval/work /tmp/seedeval/replays /tmp/seedeval/evidence
 echo setup-done
